@@ -7,6 +7,8 @@ import (
 	"bytes"
 	"encoding/hex"
 	"fmt"
+	"os"
+	"runtime/debug"
 	"sort"
 	"strconv"
 	"strings"
@@ -431,6 +433,19 @@ func init() {
 				b = protowire.AppendTag(b, 62, protowire.StartGroupType)
 			}
 			u.timedDec(out, ti, b, "unterminated-groups-5000")
+		}
+		// far beyond every limit: three million nested start-group tags. The skipper must give up at its nesting limit; a
+		// skipper that recurses without bound dies of a stack overflow, which recover() cannot catch - the marker on stderr lets
+		// the check name the input when the driver dies. Only the call is made (no row: oracle and model are not consulted).
+		if len(u.Order) > 0 {
+			first := u.Types[u.Order[0]]
+			tag := protowire.AppendTag(nil, unknownNumber(newRng(1), &first.S.Msgs[first.MI]), protowire.StartGroupType)
+			b := bytes.Repeat(tag, 3000000)
+			fmt.Fprintf(os.Stderr, "VERIF-RISKY\tUnmarshal\t%s\t3000000 nested start-group tags of an unknown field (the bytes %x repeated 3000000 times)\n", first.Key, tag)
+			old := debug.SetMaxStack(64 << 20) // a bounded skipper needs a few hundred KiB; an unbounded one needs hundreds of MiB
+			_ = safeUnmarshal(b, first.New())
+			debug.SetMaxStack(old)
+			fmt.Fprintf(os.Stderr, "VERIF-RISKY-DONE\n")
 		}
 		return nil
 	})
